@@ -140,6 +140,10 @@ pub struct EvalPlan {
     pub decl_seed: u64,
     /// def -> what a failing execution leaves behind
     pub fail: BTreeMap<usize, Leave>,
+    /// the k-th job started in this evaluation (0-based) fails: a failure that is guaranteed to
+    /// land on a job that actually runs, whatever the engine decides to run
+    #[serde(default)]
+    pub fail_started: BTreeMap<u32, Leave>,
     pub abort: Option<AbortPlan>,
     pub contract: BTreeMap<usize, ContractMode>,
     pub misuse: Vec<MisusePlan>,
@@ -154,17 +158,19 @@ impl EvalPlan {
             hash_seed,
             decl_seed,
             fail: BTreeMap::new(),
+            fail_started: BTreeMap::new(),
             abort: None,
             contract: BTreeMap::new(),
             misuse: Vec::new(),
         }
     }
     pub fn fault_free(&self) -> bool {
-        self.fail.is_empty() && self.abort.is_none() && self.contract.is_empty()
+        self.fail.is_empty() && self.fail_started.is_empty() && self.abort.is_none() && self.contract.is_empty()
     }
     pub fn without_faults(&self) -> EvalPlan {
         let mut p = self.clone();
         p.fail.clear();
+        p.fail_started.clear();
         p.abort = None;
         p.contract.clear();
         p.misuse.clear();
